@@ -40,7 +40,8 @@ func (x *hW) exchangeLegal(i int, add, rem uint8) bool {
 	return hRelCount((s&^rem)|add) <= 1
 }
 
-func (x *hW) expectPanic(pan bool, illegal bool, what string) {
+func (x *hW) expectPanic(pan bool, msg string, illegal bool, what string) {
+	x.lastPan, x.lastMsg = pan, msg
 	vAssert(pan == illegal, what)
 }
 
@@ -66,8 +67,8 @@ func (x *hW) opNewEntity(set uint8) {
 	legal := hRelCount(set) <= 1 && x.locks == 0
 	var e Entity
 	ids := x.ids(set)
-	pan, _ := vCatch(func() { e = x.w.NewEntity(ids...) })
-	x.expectPanic(pan, !legal, "NewEntity panics exactly when illegal")
+	pan, msg := vCatch(func() { e = x.w.NewEntity(ids...) })
+	x.expectPanic(pan, msg, !legal, "NewEntity panics exactly when illegal")
 	if !pan {
 		x.mCreated(e, set, Entity{})
 	}
@@ -78,8 +79,8 @@ func (x *hW) opNewEntityWith(set uint8) {
 	v := hSymVals("new")
 	comps := x.comps(set, &v)
 	var e Entity
-	pan, _ := vCatch(func() { e = x.w.NewEntityWith(comps...) })
-	x.expectPanic(pan, !legal, "NewEntityWith panics exactly when illegal")
+	pan, msg := vCatch(func() { e = x.w.NewEntityWith(comps...) })
+	x.expectPanic(pan, msg, !legal, "NewEntityWith panics exactly when illegal")
 	if !pan {
 		i := x.mCreated(e, set, Entity{})
 		x.mSetVals(i, set, &v)
@@ -100,17 +101,17 @@ func (x *hW) opBuilderNew(set uint8, r int, withTarget bool, t Entity, withComps
 	}
 	legal := hRelCount(set) <= 1 && x.locks == 0
 	if withTarget {
-		legal = legal && r >= 0 && set&(1<<r) != 0 && x.tgtOK(t)
+		legal = legal && r >= 0 && set&(1<<r) != 0 && hIsRel(r) && x.tgtOK(t)
 	}
 	var e Entity
-	pan, _ := vCatch(func() {
+	pan, msg := vCatch(func() {
 		if withTarget {
 			e = b.New(t)
 		} else {
 			e = b.New()
 		}
 	})
-	x.expectPanic(pan, !legal, "Builder.New panics exactly when illegal")
+	x.expectPanic(pan, msg, !legal, "Builder.New panics exactly when illegal")
 	if !pan {
 		tt := Entity{}
 		if withTarget {
@@ -127,7 +128,7 @@ func (x *hW) opExchange(i int, add, rem uint8, api int) {
 	legal := x.exchangeLegal(i, add, rem) && x.locks == 0
 	e := x.h[i]
 	a, r := x.ids(add), x.ids(rem)
-	pan, _ := vCatch(func() {
+	pan, msg := vCatch(func() {
 		switch api {
 		case 0:
 			x.w.Exchange(e, a, r)
@@ -137,7 +138,7 @@ func (x *hW) opExchange(i int, add, rem uint8, api int) {
 			x.w.Remove(e, r...)
 		}
 	})
-	x.expectPanic(pan, !legal, "Exchange/Add/Remove panics exactly when illegal")
+	x.expectPanic(pan, msg, !legal, "Exchange/Add/Remove panics exactly when illegal")
 	if !pan && add|rem != 0 {
 		x.mExchange(i, add, rem, false, Entity{})
 	}
@@ -148,8 +149,8 @@ func (x *hW) opAssign(i int, add uint8) {
 	v := hSymVals("asg")
 	comps := x.comps(add, &v)
 	e := x.h[i]
-	pan, _ := vCatch(func() { x.w.Assign(e, comps...) })
-	x.expectPanic(pan, !legal, "Assign panics exactly when illegal")
+	pan, msg := vCatch(func() { x.w.Assign(e, comps...) })
+	x.expectPanic(pan, msg, !legal, "Assign panics exactly when illegal")
 	if !pan {
 		x.mExchange(i, add, 0, false, Entity{})
 		x.mSetVals(i, add, &v)
@@ -161,7 +162,7 @@ func (x *hW) opSet(i int, k int, api int) {
 	legal := x.alive[i] && x.set[i]&(1<<k) != 0
 	v := hSymVals("set")
 	e := x.h[i]
-	pan, _ := vCatch(func() {
+	pan, msg := vCatch(func() {
 		if api == 0 {
 			switch k {
 			case uA:
@@ -189,7 +190,7 @@ func (x *hW) opSet(i int, k int, api int) {
 			}
 		}
 	})
-	x.expectPanic(pan, !legal, "Set / write through Get panics exactly when illegal")
+	x.expectPanic(pan, msg, !legal, "Set / write through Get panics exactly when illegal")
 	if !pan {
 		x.mSetVals(i, 1<<k, &v)
 	}
@@ -198,8 +199,8 @@ func (x *hW) opSet(i int, k int, api int) {
 func (x *hW) opRemoveEntity(i int) {
 	legal := x.alive[i] && x.locks == 0
 	e := x.h[i]
-	pan, _ := vCatch(func() { x.w.RemoveEntity(e) })
-	x.expectPanic(pan, !legal, "RemoveEntity panics exactly when illegal")
+	pan, msg := vCatch(func() { x.w.RemoveEntity(e) })
+	x.expectPanic(pan, msg, !legal, "RemoveEntity panics exactly when illegal")
 	if !pan {
 		x.alive[i] = false
 	}
@@ -208,8 +209,8 @@ func (x *hW) opRemoveEntity(i int) {
 func (x *hW) opSetRelation(i int, r int, t Entity) {
 	legal := x.alive[i] && x.set[i]&(1<<r) != 0 && hIsRel(r) && x.tgtOK(t) && x.locks == 0
 	e := x.h[i]
-	pan, _ := vCatch(func() { x.w.Relations().Set(e, x.id[r], t) })
-	x.expectPanic(pan, !legal, "Relations.Set panics exactly when illegal")
+	pan, msg := vCatch(func() { x.w.Relations().Set(e, x.id[r], t) })
+	x.expectPanic(pan, msg, !legal, "Relations.Set panics exactly when illegal")
 	if !pan {
 		x.tgt[i] = t
 	}
@@ -221,14 +222,14 @@ func (x *hW) opRelExchange(i int, add, rem uint8, r int, t Entity, api int) {
 	legal := x.exchangeLegal(i, add, rem) && add|rem != 0 && ns&(1<<r) != 0 && hIsRel(r) && x.tgtOK(t) && x.locks == 0
 	e := x.h[i]
 	a, rm := x.ids(add), x.ids(rem)
-	pan, _ := vCatch(func() {
+	pan, msg := vCatch(func() {
 		if api == 0 {
 			x.w.Relations().Exchange(e, a, rm, x.id[r], t)
 		} else {
 			NewBuilder(&x.w, a...).WithRelation(x.id[r]).Add(e, t)
 		}
 	})
-	x.expectPanic(pan, !legal, "Relations.Exchange / Builder.Add with target panics exactly when illegal")
+	x.expectPanic(pan, msg, !legal, "Relations.Exchange / Builder.Add with target panics exactly when illegal")
 	if !pan {
 		x.mExchange(i, add, rem, true, t)
 	}
@@ -236,8 +237,8 @@ func (x *hW) opRelExchange(i int, add, rem uint8, r int, t Entity, api int) {
 
 func (x *hW) opReset() {
 	legal := x.locks == 0
-	pan, _ := vCatch(func() { x.w.Reset() })
-	x.expectPanic(pan, !legal, "Reset panics exactly when locked")
+	pan, msg := vCatch(func() { x.w.Reset() })
+	x.expectPanic(pan, msg, !legal, "Reset panics exactly when locked")
 	if !pan {
 		x.n = 0
 	}
@@ -289,21 +290,21 @@ func (x *hW) opNewBatch(set uint8, count int, r int, withTarget bool, t Entity, 
 	}
 	legal := count >= 1 && hRelCount(set) <= 1 && x.locks == 0
 	if withTarget {
-		legal = legal && r >= 0 && set&(1<<r) != 0 && x.tgtOK(t)
+		legal = legal && r >= 0 && set&(1<<r) != 0 && hIsRel(r) && x.tgtOK(t)
 	}
 	tt := Entity{}
 	if withTarget {
 		tt = t
 	}
 	if !useQ {
-		pan, _ := vCatch(func() {
+		pan, msg := vCatch(func() {
 			if withTarget {
 				b.NewBatch(count, t)
 			} else {
 				b.NewBatch(count)
 			}
 		})
-		x.expectPanic(pan, !legal, "NewBatch panics exactly when illegal")
+		x.expectPanic(pan, msg, !legal, "NewBatch panics exactly when illegal")
 		if !pan {
 			got := x.adoptNew(set, tt, &v, withComps)
 			vAssert(got == count, "NewBatch creates exactly count entities")
@@ -311,14 +312,14 @@ func (x *hW) opNewBatch(set uint8, count int, r int, withTarget bool, t Entity, 
 		return
 	}
 	var q Query
-	pan, _ := vCatch(func() {
+	pan, msg := vCatch(func() {
 		if withTarget {
 			q = b.NewBatchQ(count, t)
 		} else {
 			q = b.NewBatchQ(count)
 		}
 	})
-	x.expectPanic(pan, !legal, "NewBatchQ panics exactly when illegal")
+	x.expectPanic(pan, msg, !legal, "NewBatchQ panics exactly when illegal")
 	if pan {
 		return
 	}
@@ -357,8 +358,8 @@ func (x *hW) opRemoveEntities(flt Filter, f int, t Entity) {
 	_, n := x.matching(f, t)
 	legal := x.locks == 0
 	cnt := 0
-	pan, _ := vCatch(func() { cnt = x.w.Batch().RemoveEntities(flt) })
-	x.expectPanic(pan, !legal, "RemoveEntities panics exactly when locked")
+	pan, msg := vCatch(func() { cnt = x.w.Batch().RemoveEntities(flt) })
+	x.expectPanic(pan, msg, !legal, "RemoveEntities panics exactly when locked")
 	if pan {
 		return
 	}
@@ -397,7 +398,7 @@ func (x *hW) opBatchExchange(flt Filter, f int, t Entity, add, rem uint8, api in
 	a, r := x.ids(add), x.ids(rem)
 	cnt := 0
 	var q Query
-	pan, _ := vCatch(func() {
+	pan, msg := vCatch(func() {
 		switch {
 		case rel >= 0 && useQ:
 			q = x.w.Relations().ExchangeBatchQ(flt, a, r, x.id[rel], nt)
@@ -417,7 +418,7 @@ func (x *hW) opBatchExchange(flt Filter, f int, t Entity, add, rem uint8, api in
 			cnt = x.w.Batch().Remove(flt, r...)
 		}
 	})
-	x.expectPanic(pan, !legal, "batch exchange panics exactly when illegal")
+	x.expectPanic(pan, msg, !legal, "batch exchange panics exactly when illegal")
 	if pan {
 		return
 	}
@@ -479,7 +480,7 @@ func (x *hW) opBatchSetRelation(flt Filter, f int, t Entity, rel int, nt Entity,
 	legal := x.locks == 0 && x.tgtOK(nt)
 	cnt := 0
 	var q Query
-	pan, _ := vCatch(func() {
+	pan, msg := vCatch(func() {
 		switch {
 		case useQ && viaRelations:
 			q = x.w.Relations().SetBatchQ(flt, x.id[rel], nt)
@@ -491,7 +492,7 @@ func (x *hW) opBatchSetRelation(flt Filter, f int, t Entity, rel int, nt Entity,
 			cnt = x.w.Batch().SetRelation(flt, x.id[rel], nt)
 		}
 	})
-	x.expectPanic(pan, !legal, "batch SetRelation panics exactly when illegal")
+	x.expectPanic(pan, msg, !legal, "batch SetRelation panics exactly when illegal")
 	if pan {
 		return
 	}
